@@ -76,6 +76,12 @@ M2=[ # second batch (with an optional anchor: the edit is made at the first occu
  ("C19","gossip/gossip.go","		Weight:          vg.Weight,\n","","weight dropped when reading a vertex off the wire"),
  ("C07","accountant/storage.go","			if len(k) == 32 {\n				continue\n			}","			if len(k) >= 32 {\n				continue\n			}","previous checkpoint entries are skipped when carried over"),
  ("C15","gossip/gossip.go","	if vg.Vertex == nil || len(vg.Vertex.Hash) != 32 {\n		return nil, ErrNilVertex\n	}","	if vg.Vertex == nil {\n		return nil, ErrNilVertex\n	}","GossipVrx no longer checks the hash length"),
+ ("C04","transaction/transaction.go","	n += copy(message[n:], b1)\n","	copy(message[n:], b1)\n","New: the currency bytes are overwritten by the supplementary bytes in the signed message","func New("),
+ ("C04","transaction/transaction.go","	binary.LittleEndian.PutUint64(b1, t.Spice.Currency)","	binary.LittleEndian.PutUint64(b1, t.Spice.SupplementaryCurrency)","Sign: countersignature over a message with the wrong amount","func (t *Transaction) Sign("),
+ ("C04","transaction/transaction.go","	n += copy(message[n:], []byte(t.IssuerAddress))\n	n += copy(message[n:], []byte(t.ReceiverAddress))","	n += copy(message[n:], []byte(t.ReceiverAddress))\n	n += copy(message[n:], []byte(t.IssuerAddress))","GetMessage: issuer and receiver swapped in the verified message","func (t *Transaction) GetMessage("),
+ ("C20","fileoperations/wallet.go","	raw, err := os.ReadFile(h.cfg.WalletPath)","	raw, err := os.ReadFile(h.cfg.WalletPemPath)","ReadWallet reads another file"),
+ ("C20","fileoperations/wallet.go","	closed, err := h.s.Encrypt(passwd, raw)","	closed, err := h.s.Encrypt(raw, passwd)","SaveWallet seals the key with the wallet as key"),
+ ("C20","fileoperations/wallet.go","	opened, err := h.s.Decrypt(passwd, raw)\n	if err != nil {","	opened, err := h.s.Decrypt(passwd, raw)\n	if err != nil && len(opened) == 0 {","ReadWallet goes on after a failed decryption when some bytes came back"),
 ]
 N=[ # neutral edits: every check must stay at exit 0
  ("accountant/accountant.go","	validatedLeafs := make([]*Vertex, 0, 2)\n","	validatedLeafs := make([]*Vertex, 0, 2)\n	ab.log.Debug(\"validating the parents of an incoming leaf\")\n","add a log line"),
